@@ -15,7 +15,7 @@ from mc import sched, world
 from mc.report import CheckBroken, add_sample, add_violation, count, new_part
 
 LEVEL = "model_checking"
-RULE = ("for each of 14 scenarios (2-3 real threads, <= 5 sends/receives each; plain, structured and silent entry points, blocking and non-blocking, messages including the empty string) every thread schedule with <= B preemptions "
+RULE = ("for each of 15 scenarios (2-3 real threads, <= 5 sends/receives each; plain, structured and silent entry points, blocking and non-blocking, messages including the empty string) every thread schedule with <= B preemptions "
         "(B = 2 quick, 3 thorough) is executed once on the real code; scheduling point = every line event in socket_hub.py, "
         "thread_socket/socket.py, broadcast_channel.py + blocking lock acquire + hub sleep + one failed polling round; a "
         "switch at a blocking point is free; preemptions are only placed directly before a line that touches shared hub "
@@ -76,6 +76,10 @@ SCENARIOS: Dict[str, List[Tuple[str, List[List[Any]]]]] = {
             ("B", [["tick"], ["tick"], ["connect", "b", "B", "A", 0, P], ["recv", "b"]])],
     "S9b": [("A", [["tick"], ["tick"], ["connect", "a", "A", "B", 0, P], ["send", "a", "m1"], ["close", "a"]]),
             ("B", [["connect", "b", "B", "A", 0, P], ["recv", "b"]])],
+    # two storing (callback) endpoints of one application: what arrives on socket 0 must not show up on socket 1
+    "S3c": [("A", [["connect", "a0", "A", "B", 0, P], ["connect", "a1", "A", "B", 1, P], ["send", "a0", "x1"], ["send", "a1", "y1"],
+                   ["send", "a0", "x2"]]),
+            ("B", [["connect", "b0", "B", "A", 0, CB], ["connect", "b1", "B", "A", 1, CB]])],
     # message values that are easy to mistake for "nothing" or for framing: the empty string, "0", a leading blank, the
     # "EOF" marker the bundled example applications append (the communication log trims it, the channel must not)
     "S10": [("A", [["connect", "a", "A", "B", 0, P], ["send", "a", ""], ["send", "a", "0"], ["send", "a", " EOF1,1EOF"]]),
@@ -87,7 +91,7 @@ SCENARIOS: Dict[str, List[Tuple[str, List[List[Any]]]]] = {
             ("B", [["connect", "b0", "B", "A", 0, P], ["connect", "b1", "B", "A", 1, P], ["nbs", "b0"], ["nbq", "b1"],
                    ["drains_to", "b0", 2], ["drainq_to", "b1", 2], ["nbs", "b0"]])],
 }
-ORDER = ["S1", "S2", "S3a", "S3b", "S4", "S5", "S6a", "S6b", "S7", "S8", "S9a", "S9b", "S10", "S11"]
+ORDER = ["S1", "S2", "S3a", "S3b", "S3c", "S4", "S5", "S6a", "S6b", "S7", "S8", "S9a", "S9b", "S10", "S11"]
 
 
 # ----------------------------------------------------------------------------- running one schedule of one scenario
